@@ -672,10 +672,18 @@ impl File {
             return Ok(false);
         }
         let newstamp = self.read_stamp(v)?;
+        // The builder takes a generated file for hand-edited only when its
+        // mtime or size differ from what was recorded (detect_override);
+        // a file whose mode changed, or whose build was interrupted, is a
+        // target that needs rebuilding.  Say the same here.
+        let ours = match self.stamp.as_ref() {
+            Some(stamp) => !Stamp::detect_override(stamp, &newstamp),
+            None => !newstamp.is_missing(),
+        };
         if self.is_generated
             && (!self.is_failed(v) || !newstamp.is_missing())
             && !self.is_override
-            && self.stamp.as_ref() == Some(&newstamp)
+            && ours
         {
             // Target is as we left it.
             return Ok(false);
